@@ -49,6 +49,8 @@ struct ACallbackList {
 	static const char * name() { return "CallbackList"; }
 	static const bool isQueue = false, hasFilter = false;
 	static void add(T & o, int id) { o.append(Fn(id)); }
+	static const bool canInsert = true;
+	static void insertBefore(T & o, int id, const typename T::Handle & h) { o.insert(Fn(id), h); }
 	static typename T::Handle handleAt(T & o, int pos, bool & found) { typename T::Handle h; int i = 0; found = false; o.forEach([&](const typename T::Handle & hh, const typename T::Callback &) { if(i++ == pos) { h = hh; found = true; } }); return h; }
 	static bool removeHandle(T & o, const typename T::Handle & h) { return o.remove(h); }
 	static bool handleAlive(const typename T::Handle & h) { return !h.expired(); }
@@ -67,6 +69,8 @@ struct ADispatcher {
 	static const char * name() { return "EventDispatcher"; }
 	static const bool isQueue = false, hasFilter = false;
 	static void add(T & o, int id) { o.appendListener(5, Fn(id)); }
+	static const bool canInsert = true;
+	static void insertBefore(T & o, int id, const typename T::Handle & h) { o.insertListener(5, Fn(id), h); }
 	static typename T::Handle handleAt(T & o, int pos, bool & found) { typename T::Handle h; int i = 0; found = false; o.forEach(5, [&](const typename T::Handle & hh, const typename T::Callback &) { if(i++ == pos) { h = hh; found = true; } }); return h; }
 	static bool removeHandle(T & o, const typename T::Handle & h) { return o.removeListener(5, h); }
 	static bool handleAlive(const typename T::Handle & h) { return !h.expired(); }
@@ -84,6 +88,8 @@ struct AQueue {
 	// {DisableQueueNotify on dst; dst = src; enqueue on dst} - assignment while a guard object of the destination is alive
 	static void assignUnderDqn(T & dst, T & src, int v) { typename T::DisableQueueNotify guard(&dst); dst = src; dst.enqueue(5, v); }
 	static void add(T & o, int id) { o.appendListener(5, Fn(id)); }
+	static const bool canInsert = true;
+	static void insertBefore(T & o, int id, const typename T::Handle & h) { o.insertListener(5, Fn(id), h); }
 	static typename T::Handle handleAt(T & o, int pos, bool & found) { typename T::Handle h; int i = 0; found = false; o.forEach(5, [&](const typename T::Handle & hh, const typename T::Callback &) { if(i++ == pos) { h = hh; found = true; } }); return h; }
 	static bool removeHandle(T & o, const typename T::Handle & h) { return o.removeListener(5, h); }
 	static bool handleAlive(const typename T::Handle & h) { return !h.expired(); }
@@ -104,6 +110,8 @@ struct ADispatcherF {
 	static const char * name() { return "EventDispatcher+MixinFilter"; }
 	static const bool isQueue = false, hasFilter = true;
 	static void add(T & o, int id) { o.appendListener(5, Fn(id)); }
+	static const bool canInsert = true;
+	static void insertBefore(T & o, int id, const typename T::Handle & h) { o.insertListener(5, Fn(id), h); }
 	static typename T::Handle handleAt(T & o, int pos, bool & found) { typename T::Handle h; int i = 0; found = false; o.forEach(5, [&](const typename T::Handle & hh, const typename T::Callback &) { if(i++ == pos) { h = hh; found = true; } }); return h; }
 	static bool removeHandle(T & o, const typename T::Handle & h) { return o.removeListener(5, h); }
 	static bool handleAlive(const typename T::Handle & h) { return !h.expired(); }
@@ -178,6 +186,8 @@ struct AHeterQueue {
 	static void wait(T & o) { o.wait(); }
 };
 
+template <typename A, typename = void> struct CanInsert : std::false_type {};
+template <typename A> struct CanInsert<A, typename std::enable_if<A::canInsert>::type> : std::true_type {};
 template <typename A, typename = void> struct HasDqn : std::false_type {};
 template <typename A> struct HasDqn<A, typename std::enable_if<A::hasDqn>::type> : std::true_type {};
 
@@ -313,6 +323,17 @@ struct Harness : HarnessBase {
 	}
 	// copy assignment (from another object or from itself) while a DisableQueueNotify of the destination is alive, an enqueue
 	// inside the scope: the assignment concerns listeners, not the guard's counter - afterwards waiting and notification work
+	// insert before the LAST listener: the newest node then sits in the middle of the chain (generation counters no longer grow
+	// along the list), which is what copies, moves and swaps made afterwards have to cope with
+	template <typename AA> void opInsertBeforeLast(int i, std::true_type) {
+		int id = nextId++;
+		int last = (int)model[i].listeners.size() - 1;
+		bool found; typename T::Handle h = AA::handleAt(*obj[i], last, found);
+		ctx.log(fmt("insert #%d into O%d before its last listener", id, i));
+		AA::insertBefore(*obj[i], id, h);
+		model[i].listeners.insert(model[i].listeners.end() - 1, id);
+	}
+	template <typename AA> void opInsertBeforeLast(int, std::false_type) {}
 	template <typename AA> void opAssignUnderDqn(int i, int j, std::true_type) {
 		ctx.log(fmt("{ DisableQueueNotify(O%d); O%d = O%d; enqueue on O%d }", i, i, j, i));
 		AA::assignUnderDqn(*obj[i], *obj[j], 3);
@@ -401,7 +422,7 @@ struct Harness : HarnessBase {
 	template <typename AA> void opFilter(int, std::false_type) {}
 
 	// ---- alphabet
-	int menu() const { int n = cfg.nSlots; return n + n + n * n + n * n + n * n + n * n + n * n + n * n + n + 2 * n + n + n + 1 + 2 + (A::isQueue ? 3 * n : 0) + (A::hasFilter ? n : 0); }
+	int menu() const { int n = cfg.nSlots; return n + n + n * n + n * n + n * n + n * n + n * n + n * n + n + 2 * n + n + n + 1 + 2 + n + (A::isQueue ? 3 * n : 0) + (A::hasFilter ? n : 0); }
 	void topOp(Bfs & b, int op) {
 		int n = cfg.nSlots;
 		if(op < n) { if(obj[op]) b.skip(); opDefault(op); return; } op -= n;
@@ -427,6 +448,7 @@ struct Harness : HarnessBase {
 		if(op < n) { if(!obj[op] || !cfg.nested || Heter || model[op].listeners.empty()) b.skip(); opTriggerNested(op); return; } op -= n;
 		if(op < 1) { if(!obj[0] || model[0].listeners.empty()) b.skip(); opSelfAssignThenRemove(0); return; } op -= 1;
 		if(op < 2) { if(!HasDqn<A>::value || !obj[0] || !obj[op] || model[0].pending >= 2) b.skip(); opAssignUnderDqn<A>(0, op, HasDqn<A>()); return; } op -= 2;
+		if(op < n) { if(!CanInsert<A>::value || !obj[op] || model[op].listeners.empty() || (int)model[op].listeners.size() > cfg.K) b.skip(); opInsertBeforeLast<A>(op, CanInsert<A>()); return; } op -= n;
 		if(A::isQueue) {
 			if(op < n) { if(!obj[op] || model[op].pending >= 2) b.skip(); opEnqueue(op, std::integral_constant<bool, A::isQueue>()); return; } op -= n;
 			if(op < n) { if(!obj[op]) b.skip(); opProcess(op, std::integral_constant<bool, A::isQueue>()); return; } op -= n;
